@@ -104,7 +104,19 @@ const WALL: Duration = Duration::from_secs(5);
 impl Sys {
     async fn new() -> Result<Self, String> {
         let world = make_world(&Cfg { metrics: true, ..Cfg::default() })?;
-        let listener = tokio::net::TcpListener::bind("127.0.0.1:0").await.map_err(|e| e.to_string())?;
+        // one listening port per worker thread for all histories: a gracefully closed tunnel leaves a
+        // TIME_WAIT entry on the listener's port, and a fresh port per history would use up the range
+        thread_local! {
+            static PEER_LISTENER: std::net::TcpListener = {
+                let l = std::net::TcpListener::bind("127.0.0.1:0").expect("bind peer listener");
+                l.set_nonblocking(true).expect("nonblocking");
+                l
+            };
+        }
+        let std_l = PEER_LISTENER.with(|l| l.try_clone()).map_err(|e| e.to_string())?;
+        // connections a previous history left in the backlog
+        while std_l.accept().is_ok() {}
+        let listener = tokio::net::TcpListener::from_std(std_l).map_err(|e| e.to_string())?;
         let peer_addr = listener.local_addr().unwrap();
         // a destination that refuses connections: answered by the interposer (a bound-then-dropped
         // port could be reused by another worker thread's listener)
@@ -483,15 +495,18 @@ impl Sys {
         }
         // over the wire: GET /metrics and /health-check through the metrics request handler
         // (every history up to length 3, every fourth longer one: real sockets are a finite resource)
-        if hist.len() > 3 && hash_of(&format!("{hist:?}")) % 4 != 0 {
+        // (and every 16th beyond length 6: the handler closes first, each exchange leaves a TIME_WAIT entry)
+        let h = hash_of(&format!("{hist:?}"));
+        if (hist.len() > 3 && h % 4 != 0) || (hist.len() > 6 && h % 16 != 0) {
             return Ok(());
         }
+        let l = std::sync::Arc::new(tokio::net::TcpListener::bind("127.0.0.1:0").await.map_err(|e| fail("machinery", e.to_string()))?);
+        let addr = l.local_addr().unwrap();
         for (path, want_status) in [("/metrics", 200u16), ("/health-check", 200), ("/other", 400)] {
-            let l = tokio::net::TcpListener::bind("127.0.0.1:0").await.map_err(|e| fail("machinery", e.to_string()))?;
-            let addr = l.local_addr().unwrap();
             let ctx = self.world.ctx.clone();
+            let l2 = l.clone();
             let srv = tokio::spawn(async move {
-                if let Ok((s, _)) = l.accept().await {
+                if let Ok((s, _)) = l2.accept().await {
                     vh::metrics_handle_request(&ctx, s).await;
                 }
             });
@@ -589,7 +604,7 @@ impl HistoryModel for M {
 pub fn run(tier: Tier) -> i32 {
     crate::engine::watch::start("C16", tier.name(), Duration::from_secs(120), crate::engine::watch::OnExpiry::Machinery);
     let mut rep = Report::new("C16", tier, "model_checking");
-    let depth = tier.pick(6usize, 8usize);
+    let depth = tier.pick(6usize, 11usize);
     let (st, viol, samples) = bfs(&M, depth, Duration::from_secs(tier.pick(50, 1500)), rt::workers(), &|| {});
     let mut viol = viol;
     viol.sort_by_key(|(h, _)| h.len());
